@@ -109,6 +109,13 @@ func genC11(t *rapid.T) (C11Case, bool) {
 				d.Fields = append(d.Fields, model.Field{Name: "zzRemovedStep", Type: model.Prim("int32")})
 			}
 		}
+		// optionally the previous version also has protocols the current one lacks (accepted with a
+		// warning on their own); the removed step must be reported whatever else is reported
+		if rapid.Bool().Draw(t, "alsoRemovedProtocols") {
+			for j := 0; j < 3; j++ {
+				v.Defs = append(v.Defs, &model.Def{Kind: model.DProtocol, Name: fmt.Sprintf("OldProto%c", 'A'+j), Fields: []model.Field{{Name: "x", Type: model.Prim("int32")}}})
+			}
+		}
 		root.Versions = []model.Version{{Label: "v0", Pkg: v}}
 		c.Site, c.Rule = "evolution", "removed-step"
 		c.Layout = model.EmitLayout(root, model.EmitOptions{ExtraManifest: c.Out.Manifest})
